@@ -111,20 +111,20 @@ SF = 'eqsig/surface.py'
 DP = 'eqsig/displacements.py'
 MUTANTS += [
     # ---- C05: every defensive copy ---------------------------------------------------------------------------------------
-    mut('c05-delta-series-asarray', ['C05'], (PC, "    >>> determine_peaks_only_delta_series(values)\n    array([0,  2, -1,  1,  0,  -1,  0,  -2,  0,  2,  0])\n    \"\"\"\n    # enforce array type\n    values = np.array(values)", "    >>> determine_peaks_only_delta_series(values)\n    array([0,  2, -1,  1,  0,  -1,  0,  -2,  0,  2,  0])\n    \"\"\"\n    # enforce array type\n    values = np.asarray(values)")),
-    mut('c05-pseudo-cyclic-asarray', ['C05'], (PC, "    array([0,  2, -1,  2,  0,  1,  0,  1,  0,  1,  0])\n    \"\"\"\n    # enforce array type\n    values = np.array(values)", "    array([0,  2, -1,  2,  0,  1,  0,  1,  0,  1,  0])\n    \"\"\"\n    # enforce array type\n    values = np.asarray(values)")),
-    mut('c05-ctor-asarray', ['C05', 'C08'], (SG, "        self._values = np.array(values)\n        self.label = label", "        self._values = np.asarray(values)\n        self.label = label")),
-    mut('c05-F3-regress', ['C05', 'C18'], (SG, "        self._values = np.array(new_values)\n        self._npts = len(self._values)", "        self._values = new_values\n        self._npts = len(new_values)")),
-    mut('c05-reset-asarray', ['C05'], (SG, "        self._values = np.array(new_values)\n        self._npts = len(self._values)", "        self._values = np.asarray(new_values)\n        self._npts = len(self._values)")),
+    mut('c05-delta-series-asarray', ['C05'], (PC, "    >>> determine_peaks_only_delta_series(values)\n    array([0,  2, -1,  1,  0,  -1,  0,  -2,  0,  2,  0])\n    \"\"\"\n    # enforce array type\n    values = np.array(values, dtype=float)", "    >>> determine_peaks_only_delta_series(values)\n    array([0,  2, -1,  1,  0,  -1,  0,  -2,  0,  2,  0])\n    \"\"\"\n    # enforce array type\n    values = np.asarray(values, dtype=float)")),
+    mut('c05-pseudo-cyclic-asarray', ['C05'], (PC, "    array([0,  2, -1,  2,  0,  1,  0,  1,  0,  1,  0])\n    \"\"\"\n    # enforce array type\n    values = np.array(values, dtype=float)", "    array([0,  2, -1,  2,  0,  1,  0,  1,  0,  1,  0])\n    \"\"\"\n    # enforce array type\n    values = np.asarray(values, dtype=float)")),
+    mut('c05-ctor-asarray', ['C05', 'C08'], (SG, "        self._values = np.array(values)\n        if self._values.dtype.kind in 'iub':  # integer counts", "        self._values = np.asarray(values)\n        if self._values.dtype.kind in 'iub':  # integer counts")),
+    mut('c05-F3-regress', ['C05', 'C18'], (SG, "        self._values = np.array(new_values)\n        if self._values.dtype.kind in 'iub':\n            self._values = self._values.astype(float)\n        self._npts = len(self._values)", "        self._values = new_values\n        self._npts = len(new_values)")),
+    mut('c05-reset-asarray', ['C05'], (SG, "        self._values = np.array(new_values)\n        if self._values.dtype.kind in 'iub':\n            self._values = self._values.astype(float)\n        self._npts", "        self._values = np.asarray(new_values)\n        if self._values.dtype.kind in 'iub':\n            self._values = self._values.astype(float)\n        self._npts")),
     mut('c05-surface-downwaves-view', ['C05', 'C19'], (SF, "    up_wave = np.pad(asig.values, (0, max_shift), mode='constant', constant_values=0)\n    dshifted = np.arange(asig.npts + max_shift)[np.newaxis, :] - shifts[:, np.newaxis]  # TODO: not needed if shifts is scalar\n    down_waves = np.interp(dshifted, np.arange(asig.npts), asig.values, left=0, right=0)\n    if hasattr(up_red, '__len__'):\n        up_wave = up_wave[np.newaxis, :] * up_red[:, np.newaxis]  # 1d\n        down_waves *= down_red[:, np.newaxis]\n    else:\n        up_wave = up_wave * up_red  # 1d  # TODO: may need to increase dimensions here\n        down_waves *= down_red\n    if nodal:\n        acc_series = - down_waves + up_wave\n    else:\n        acc_series = down_waves + up_wave\n    velocity", "    up_wave = np.pad(asig.values, (0, max_shift), mode='constant', constant_values=0)\n    dshifted = np.arange(asig.npts + max_shift)[np.newaxis, :] - shifts[:, np.newaxis]  # TODO: not needed if shifts is scalar\n    down_waves = np.interp(dshifted, np.arange(asig.npts), asig.values, left=0, right=0)\n    if hasattr(up_red, '__len__'):\n        up_wave = up_wave[np.newaxis, :] * up_red[:, np.newaxis]  # 1d\n        down_red *= 1.0\n        down_waves *= down_red[:, np.newaxis]\n        down_red[0] *= 0.5\n    else:\n        up_wave = up_wave * up_red  # 1d  # TODO: may need to increase dimensions here\n        down_waves *= down_red\n    if nodal:\n        acc_series = - down_waves + up_wave\n    else:\n        acc_series = down_waves + up_wave\n    velocity")),
     mut('c05-cumsum-out-argument', ['C05', 'C08'], (DP, "        velocity = np.zeros(len(acceleration) + 1)\n        velocity[1:] = np.asarray(acceleration) * dt  # computes the increments", "        velocity = np.zeros(len(acceleration) + 1)\n        if isinstance(acceleration, np.ndarray) and acceleration.dtype == float:\n            acceleration *= dt\n            velocity[1:] = acceleration\n        else:\n            velocity[1:] = np.asarray(acceleration) * dt  # computes the increments")),
     mut('c05-step-fn-asarray-inplace', ['C05'], (AV, "    values = np.array(values)\n    npts = len(values)\n    pre_a", "    values = np.asarray(values)\n    npts = len(values)\n    pre_a"), (AV, "    err[-1] = np.sum(np.abs(values - np.mean(values)) ** pow)", "    if values.dtype == float:\n        values -= np.mean(values)\n        err[-1] = np.sum(np.abs(values) ** pow)\n    else:\n        err[-1] = np.sum(np.abs(values - np.mean(values)) ** pow)")),
     mut('c05-rollav-inplace-edge', ['C05', 'C20'], (AV, "    values = np.array(values)\n    steps = int(steps)", "    values = np.asarray(values)\n    steps = int(steps)\n    if values.dtype == float and steps > len(values):\n        values[-1] = values[-2]")),
-    mut('c05-npts-stale-after-reset(seeded C05-A like)', ['C05', 'C04'], (SG, "        self._values = np.array(new_values)\n        self._npts = len(self._values)\n        self.clear_cache()", "        self._values = np.array(new_values)\n        self.clear_cache()")),
+    mut('c05-npts-stale-after-reset(seeded C05-A like)', ['C05', 'C04'], (SG, "            self._values = self._values.astype(float)\n        self._npts = len(self._values)\n        self.clear_cache()", "            self._values = self._values.astype(float)\n        self.clear_cache()")),
     mut('c05-remove_poly-fn-inplace', ['C05', 'C17'], ('eqsig/fns/generic.py', "    return values - y_cor", "    values -= y_cor\n    return values")),
     mut('c05-stockwell-overwrite-input', ['C05', 'C15'], ('eqsig/stockwell.py', "    acc_db = acc\n    n_d2 = int(len(acc) / 2)\n    n_factor = 2 * n_d2\n    gaussian = generate_gaussian(n_d2)\n\n    fa = fft(acc_db, n_factor, overwrite_x=True)", "    acc_db = acc\n    n_d2 = int(len(acc) / 2)\n    n_factor = 2 * n_d2\n    gaussian = generate_gaussian(n_d2)\n    if isinstance(acc_db, np.ndarray) and acc_db.dtype == float:\n        acc_db -= 0 * acc_db[0]\n        acc_db[-1:] *= 1.0 + 1e-15\n\n    fa = fft(acc_db, n_factor, overwrite_x=True)")),
     mut('c05-values-become-list-in-time_match', ['C05', 'C18'], ('eqsig/multiple.py', "                slave_signal.reset_values(m_temp)", "                slave_signal._values = m_temp\n                slave_signal.clear_cache()")),
 ]
 CONTROLS += [
-    mut('ctl-ctor-copy-true', ['C05', 'C08', 'C16'], (SG, "        self._values = np.array(values)\n        self.label = label", "        self._values = np.array(values, copy=True)\n        self.label = label"), control=True),
+    mut('ctl-ctor-copy-true', ['C05', 'C08', 'C16'], (SG, "        self._values = np.array(values)\n        if self._values.dtype.kind in 'iub':  # integer counts", "        self._values = np.array(values, copy=True)\n        if self._values.dtype.kind in 'iub':  # integer counts"), control=True),
 ]
